@@ -46,6 +46,9 @@ var c19Paths = []string{
 	`a.b`,                                  // leading $ omitted, bare name
 	`$.b[?(@[99999999999999999999] == 1)]`, // failure inside a filter parameter with an outer path
 	`$.b[?(@.a.zz() == 1)]`,                // unknown function inside a filter parameter with an outer path
+	// paths of more than 64 and more than 128 bytes (size thresholds of parser-side caches)
+	`$[?(@.a == 1 || @.a == 2 || @.b == 1 || @.b == 2 || @.a.f() == 2 || @.a == 3)].a`,
+	`$[?(@.a == 1 || @.a == 2 || @.b == 1 || @.b == 2 || @.a == 3 || @.a == 4 || @.a == 5 || @.a == 6 || @.a == 7 || @.a == 8 || @.a == 9)]['a','b'].zz()`,
 }
 
 // config kinds: 0 none, 1 {f}, 2 {g}, 3 {f' = same name, other behaviour}, 4 accessor only,
@@ -59,7 +62,7 @@ func c19OpEnabled(op int) bool {
 	if op >= c19NumParse() {
 		return true
 	}
-	return op%c19NumCfg < 7 || op/c19NumCfg <= 2
+	return op%c19NumCfg < 7 || op/c19NumCfg <= 2 || op/c19NumCfg == 19
 }
 
 func c19F(v interface{}) (interface{}, error) {
@@ -136,7 +139,7 @@ func c19Core(op int) bool {
 	}
 	pi, ck := op/c19NumCfg, op%c19NumCfg
 	switch pi {
-	case 1, 2, 7, 15, 17, 18:
+	case 1, 2, 7, 15, 17, 18, 19:
 		return ck == 0 || ck == 1 || ck == 6
 	}
 	return false
@@ -679,7 +682,7 @@ func init() {
 			"the state hash covers every package-level variable (reflectively, unexported fields included; function values as nil/non-nil) and the pool contents; state hidden in closures of the generated matcher is outside the hash - part (i) does not depend on the hash",
 		},
 		Bounds: map[string]string{
-			"quick":    "operations: Parse of 19 paths (plain, filter function, aggregate, functions inside filters, nested parameters, and one failing at each action: bad integer, bad float, bad regex, bad string, unknown function after a known one, script, value-group comparison, two @ operands, trailing garbage) x 7 configs (none, {f}, {g}, {f'}, accessor, all, shared object) plus, for the plain / f / g paths, two Config arguments (shared object, fresh {f', h, g}) and a by-value copy of the shared object with accessor mode set on the copy, 'rebind f in the shared Config', 're-call an earlier function'; all histories of length <=2 and length 3 with a reduced third alphabet; BFS to fixpoint",
+			"quick":    "operations: Parse of 21 paths (two of them longer than 64 / 128 bytes; plain, filter function, aggregate, functions inside filters, nested parameters, and one failing at each action: bad integer, bad float, bad regex, bad string, unknown function after a known one, script, value-group comparison, two @ operands, trailing garbage) x 7 configs (none, {f}, {g}, {f'}, accessor, all, shared object) plus, for the plain / f / g paths, two Config arguments (shared object, fresh {f', h, g}) and a by-value copy of the shared object with accessor mode set on the copy, 'rebind f in the shared Config', 're-call an earlier function'; all histories of length <=2 and length 3 with a reduced third alphabet; BFS to fixpoint",
 			"thorough": "as quick, plus: third operation also over the core alphabet of 20 (the function, bad-regex, '$'-less and failing-parameter paths with no config / {f} / the shared object, rebind, re-call), and all histories of length 4 whose first two operations range over the full alphabet and whose last two over the core alphabet; BFS to fixpoint",
 		},
 		New: newC19,
